@@ -72,9 +72,13 @@ pub async fn save_env_state(target: &TargetMetadata, env_state: TargetEnvState) 
 
     let file_path = get_checksums_file_path(target);
     let target_id = target.id.clone();
+    #[cfg(zinoma_verif)]
+    let verif_write_limit = crate::verif::write_limit(&target.id);
     task::spawn_blocking(move || {
         let file = std::fs::File::create(&file_path)
             .with_context(|| format!("Failed to create checksums file {}", file_path.display()))?;
+        #[cfg(zinoma_verif)]
+        let file = crate::verif::LimitedWriter::new(file, verif_write_limit);
         bincode::serialize_into(file, &env_state)
             .with_context(|| format!("Failed to serialize checksums for {}", target_id))
     })
